@@ -297,6 +297,20 @@ def merge_cases(run: Run):
             for st_ in ([sm(1)], [sm(1), cx, W.w_stmt(_dg0.X(1))], [W.w_stmt(_dg0.H(1)), cx, sm(1)], [sm(0), cx, sm(0)], [sm(1), W.w_stmt(_dg0.H(1))]):
                 if run.quick() and rng.random() < 0.5: continue
                 cases.append({"c": {"nq": 2, "nb": 1, "stmts": st_}, "band": False, "ex": False})
+    from opensquirrel.ir import BlochSphereRotation as _B1
+    import opensquirrel.default_gates as _dg1
+    from opensquirrel.ir import Float as _F1
+    # two half turns about one oblique axis make a full turn (the acos argument is -1 up to rounding, from either side)
+    int_axes = [ax_ for ax_ in itertools.product(range(-3, 4), repeat=3) if any(ax_) and sum(1 for x_ in ax_ if x_) >= 2]
+    for ax_ in (int_axes if not run.quick() else rng.sample(int_axes, 60)):
+        for a1, a2 in ((math.pi, math.pi), (math.pi, -math.pi), (-math.pi, -math.pi)):
+            st_ = [W.w_stmt(_B1(0, ax_, a1, 0.0)), W.w_stmt(_B1(0, ax_, a2, 0.0))]
+            cases.append({"c": {"nq": 2, "nb": 1, "stmts": st_ + [W.w_stmt(_dg1.CNOT(0, 1)), W.w_stmt(_dg1.H(0))]}, "band": False, "ex": False})
+    # pairs that cancel as rotations while their stored phases differ (X then Rx(pi), Z then Rz(pi), S S Z, ...): nothing may be left
+    for st_ in ([_dg1.X(0), _dg1.Rx(0, _F1(math.pi))], [_dg1.Z(0), _dg1.Rz(0, _F1(math.pi))], [_dg1.Y(0), _dg1.Ry(0, _F1(-math.pi))], [_dg1.S(0), _dg1.S(0), _dg1.Z(0)],
+                [_dg1.T(0), _dg1.T(0), _dg1.S(0), _dg1.Z(0)], [_dg1.Rx(0, _F1(math.pi)), _dg1.Rx(0, _F1(math.pi))], [_dg1.X(0), _dg1.Rx(0, _F1(-math.pi))], [_dg1.Rz(0, _F1(math.pi)), _dg1.Z(0)]):
+        cases.append({"c": {"nq": 1, "nb": 1, "stmts": [W.w_stmt(x_) for x_ in st_]}, "band": False, "ex": False, "cancel": True})
+        cases.append({"c": {"nq": 2, "nb": 1, "stmts": [W.w_stmt(x_) for x_ in st_] + [W.w_stmt(_dg1.CNOT(0, 1))]}, "band": False, "ex": False, "cancel": True})
     # a rotation directly followed by its exact inverse (cos^2 + sin^2 may evaluate to 1.0000000000000002)
     from opensquirrel.ir import BlochSphereRotation as _B1
     import opensquirrel.default_gates as _dg1
@@ -385,6 +399,10 @@ def run_merge(run: Run, want_c02: bool, want_c14: bool):
             for s in b["stmts"]:
                 if is_bsr_stmt(s) and is_identity_gate(s["g"]):
                     run.violation("identity gate left after merging", c); break
+            if not any(is_bsr_stmt(s) and abs(s["g"]["angle"]) < 3e-7 for s in a["stmts"]):
+                for s in b["stmts"]:
+                    if is_bsr_stmt(s) and abs(s["g"]["angle"]) < 1e-7:
+                        run.violation("a gate that does nothing (rotation by 0, only a global phase) is left after merging", c); break
             # stability
             r2 = O.impl_merge(b)
             if r2["err"] is not None: run.violation(f"second merge raised {r2['err']}", c)
